@@ -4,10 +4,10 @@ package main
 // and to the Gallina term the Coq model evaluates, so the two sides are fed from a single source.
 
 import (
-	"math/big"
 	"encoding/hex"
 	"encoding/json"
 	"fmt"
+	"math/big"
 	"sort"
 	"strings"
 )
